@@ -19,7 +19,7 @@ import (
 
 func init() {
 	seqChecks["c10"] = &seqCheck{run: runC10, replay: replayC10,
-		rule: "all ordered pairs (absent included) of collections of length<=4 over {1,2,3}, of collections of length<=3 over {1,'x',ref,softref,data}, and of models over keys {a,b,c} with values {absent,1,'x',ref,data}; all mutation histories of length<=3 over ids {1,2}; x configuration {no transformer, IDTransformer, value-dependent rid, transformer failing on one value, transformer hiding one value as not found, empty rid} x default {none, set}; mutations go through the real mockstore -> OnChange -> store handler -> events; a reference RES client applies the events to the pre-mutation get and must equal a fresh get; distinct = distinct (configuration, before, after, event list)"}
+		rule: "all ordered pairs (absent included) of collections of length<=4 over {1,2,3}, of collections of length<=3 over {1,'x',ref,softref,data}, and of models over keys {a,b,c} with values {absent,1,'x',ref,data}; all mutation histories of length<=3 over ids {1,2}; x configuration {no transformer, IDTransformer, value-dependent rid, transformer failing on one value, transformer hiding one value as not found, empty rid, one IDTransformer shared with a second handler} x default {none, set}; mutations go through the real mockstore -> OnChange -> store handler -> events; a reference RES client applies the events to the pre-mutation get and must equal a fresh get; distinct = distinct (configuration, before, after, event list)"}
 }
 
 type c10Cfg struct {
@@ -65,6 +65,8 @@ func (c c10Case) String() string {
 }
 
 type c10World struct {
+	base string           // resource id prefix of the handler under test ("" = t.m.)
+	warm *mockstore.Store // store of the other handler in the shared-transformer configuration
 	conn *envnats.Conn
 	st   *mockstore.Store
 	s    *res.Service
@@ -165,6 +167,17 @@ func newC10World(cfg c10Cfg) *c10World {
 			h.Default = map[string]interface{}{"d": "dflt"}
 		}
 	}
+	if cfg.Trans == "shared" {
+		// one IDTransformer value shared by two handlers on different patterns (each with a store of its own):
+		// the handler under test is n.$id, the other one is used first
+		tr := store.IDTransformer("id", nil)
+		w.warm = mockstore.NewStore()
+		s.Handle("m.$id", typ, store.Handler{Store: w.warm, Transformer: tr})
+		h.Transformer = tr
+		s.Handle("n.$id", typ, h)
+		w.base = "t.n."
+		return w
+	}
 	s.Handle("m.$id", typ, h)
 	return w
 }
@@ -190,6 +203,16 @@ func c10Batch(cfg c10Cfg, cases []c10Case, emit func(cs c10Case, desc string), c
 		w.s.SetOnServe(func(*res.Service) { vsched.Send(served, struct{}{}) })
 		vsched.Go("serve", func() { w.s.Serve(w.conn) })
 		vsched.Recv(served)
+		if w.warm != nil {
+			wt := w.warm.Write("w")
+			if cfg.Type == "collection" {
+				wt.Create([]interface{}{1.0})
+			} else {
+				wt.Create(map[string]interface{}{"a": 1.0})
+			}
+			wt.Close()
+			vsched.AwaitQuiescence()
+		}
 		for _, cs := range cases {
 			// reset the store content without callbacks
 			w.st.Resources = map[string]interface{}{}
@@ -198,6 +221,9 @@ func c10Batch(cfg c10Cfg, cases []c10Case, emit func(cs c10Case, desc string), c
 			}
 			// the client holds the resource the watched id is served under before the history
 			curRID := "t.m." + cs.Watch
+			if w.base != "" {
+				curRID = w.base + cs.Watch
+			}
 			cache, err := ref.FromGet(w.get(curRID))
 			if err != nil {
 				if cfg.Trans == "failing" {
@@ -340,7 +366,7 @@ func runC10(c *seqCtx) {
 	_ = models
 	var cfgs []c10Cfg
 	for _, ty := range []string{"collection", "model"} {
-		for _, tr := range []string{"none", "id", "xform", "failing", "hiding", "emptyrid"} {
+		for _, tr := range []string{"none", "id", "xform", "failing", "hiding", "emptyrid", "shared"} {
 			for _, d := range []bool{false, true} {
 				cfgs = append(cfgs, c10Cfg{ty, tr, d})
 			}
